@@ -242,6 +242,8 @@ pub const NETS: &[&str] = &[
     "concat2(sh,sh)",
     "concat2(fi,fi)",
     "merge2(fi,fi)",
+    "merge2(sh,sh)",
+    "combine2(sh,sh)",
 ];
 
 /// Networks of several real operators over puppets: the protocol oracles (C01-C05, C17) are
@@ -303,6 +305,15 @@ fn build_net(name: &str) -> WorldRt {
         "merge2(fi,fi)" => {
             let fi: Src = Arc::new(callbag::from_iter(Xs(Arc::new(vec![1, 2]), false)));
             probe_world(Arc::new(callbag::merge(b(vec![fi.clone(), fi]))), rec_i64())
+        },
+        "merge2(sh,sh)" => {
+            let sh: Src = Arc::new(callbag::share(p[0].clone()));
+            probe_world(Arc::new(callbag::merge(b(vec![sh.clone(), sh]))), rec_i64())
+        },
+        "combine2(sh,sh)" => {
+            let sh: Src = Arc::new(callbag::share(p[0].clone()));
+            let c: Arc<Source<(i64, i64)>> = Arc::new(callbag::combine((sh.clone(), sh)));
+            probe_world(c, rec_t2())
         },
         other => panic!("unknown net {other}"),
     }
